@@ -66,7 +66,7 @@ func normParam(raw string) string {
 
 func checkC36(r *ev.Run) {
 	nScripts := r.N(12, 120)
-	r.Rule("script = bootstrap + one block per parameter key: for EVERY key present in the access-control list read from the chain's own state after feature activation (exhaustive over the key list), change-param transactions by {the ACL owner of that key, the owner of a different key only, an unrelated funded account} in PRNG order with a type-valid new value derived from the stored JSON (risky keys re-submit the stored value), then DAO transfers/burns by owner and non-owner with amounts below, equal to and above the DAO balance, and upgrade messages by owner/non-owner. Per-tx pre/post snapshots. Oracle: non-owner => params store digest (and DAO/recipient balances) unchanged, only the fee moves; owner + valid value => that key's stored value equals the submitted one and no other params entry changed; DAO transfer/burn by owner <= balance moves exactly the amount out of the DAO account (to the recipient / out of the supply), > balance moves nothing. Non-trivial = distinct (key or action, signer relation, outcome).")
+	r.Rule("script = bootstrap + one block per parameter key: for EVERY key present in the access-control list read from the chain's own state after feature activation (exhaustive over the key list), change-param transactions by {the ACL owner of that key, the owner of a different key only, an unrelated funded account} in PRNG order with a type-valid new value derived from the stored JSON (risky keys re-submit the stored value), then DAO transfers/burns by the DAO owner, a stranger, the ACL owner of another parameter or (every third script) of the gov/daoOwner parameter itself, and — in a quarter of the scripts, after the DAO owner was replaced through change-param — by the previous and the new DAO owner, with amounts below, equal to and above the DAO balance, and upgrade messages by owner/non-owner. Per-tx pre/post snapshots. Oracle: non-owner => params store digest (and DAO/recipient balances) unchanged, only the fee moves; owner + valid value => that key's stored value equals the submitted one and no other params entry changed; DAO transfer/burn by owner <= balance moves exactly the amount out of the DAO account (to the recipient / out of the supply), > balance moves nothing. Non-trivial = distinct (key or action, signer relation, outcome).")
 	// pass 1: learn the key list and stored values from the real chain at the end of the bootstrap
 	boot := newTxPlan(chain.DefaultGen(5, 2, 11))
 	boot.B.Empty(60)
@@ -107,11 +107,19 @@ func checkC36(r *ev.Run) {
 		g := chain.DefaultGen(5, 2, 11)
 		p := newTxPlan(g)
 		owner := chain.KeyOwner
-		// make otherOwner the ACL owner of exactly one key (auth/MaxMemoCharacters) through a legitimate ACL change
+		// make otherOwner the ACL owner of exactly one key through a legitimate ACL change: every third script the key
+		// that names the DAO owner (its ACL owner may change WHO the DAO owner is, but is not the DAO owner), else a
+		// key that rotates through the list
+		handed := "gov/daoOwner"
+		if si%3 != 0 {
+			if cand := keys[(si*7)%len(keys)]; cand != "gov/acl" {
+				handed = cand
+			}
+		}
 		newACL := make([]map[string]string, 0, len(acl))
 		for _, e := range acl {
 			a := e.Addr
-			if e.Key == "auth/MaxMemoCharacters" {
+			if e.Key == handed {
 				a = chain.AddrHex(otherOwner)
 			}
 			newACL = append(newACL, map[string]string{"acl_key": e.Key, "address": a})
@@ -130,7 +138,7 @@ func checkC36(r *ev.Run) {
 				key int
 				rel string
 			}{{owner, "owner"}, {otherOwner, "owner-of-another-key"}, {chain.KeyAcct0 + 9, "stranger"}}
-			if k == "auth/MaxMemoCharacters" {
+			if k == handed {
 				signers[0], signers[1] = struct {
 					key int
 					rel string
@@ -155,11 +163,37 @@ func checkC36(r *ev.Run) {
 		}
 		// DAO actions
 		daoBal := int64(5_000_000_000)
-		for i := 0; i < 10; i++ {
+		newDAO := -1
+		if si%4 == 1 {
+			// the DAO owner is replaced (by whoever owns that parameter): the previous owner must lose, the new one gain, the power
+			newDAO = chain.KeyAcct0 + 8
+			by := owner
+			if handed == "gov/daoOwner" {
+				by = otherOwner
+			}
+			val := fmt.Sprintf("%q", chain.AddrHex(newDAO))
 			p.B.Begin(60)
-			signer, rel := owner, "owner"
-			if i%3 == 2 {
+			p.add("change_param", chain.MsgChangeParam(chain.Addr(by), "gov/daoOwner", []byte(val)), by, nil, map[string]string{"key": "gov/daoOwner", "relation": "owner", "value": val, "mutated": "true", "setup": "true"})
+			p.B.End()
+		}
+		for i := 0; i < 14; i++ {
+			p.B.Begin(60)
+			signer, rel := owner, "dao-owner"
+			if newDAO >= 0 {
+				rel = "previous-dao-owner"
+			}
+			switch i % 5 {
+			case 2:
 				signer, rel = chain.KeyAcct0+9, "stranger"
+			case 3:
+				signer, rel = otherOwner, "acl-owner-of-another-parameter"
+				if handed == "gov/daoOwner" {
+					rel = "acl-owner-of-the-daoOwner-parameter"
+				}
+			case 4:
+				if newDAO >= 0 {
+					signer, rel = newDAO, "dao-owner"
+				}
 			}
 			amt := []int64{1, 1_000_000, daoBal / 2, daoBal * 2, 9_000_000_000_000}[rr.Intn(5)]
 			to := chain.KeyAcct0 + rr.Intn(5)
@@ -259,7 +293,9 @@ func judgeGov(r *ev.Run, si int, c *txCase) {
 		ds := new(big.Int).Sub(monitor.SupplyOf(c.Post), monitor.SupplyOf(c.Pre))
 		coll := monitor.ModuleAddr(c.Post, monitor.FeeCollector)
 		want := feeOnly(c.Post, signer, c.Opts.Fee)
-		okMove := rel == "owner" && amt.Cmp(daoBal) <= 0
+		// who the DAO owner is, is read from the state the transaction executed on (never from the generator's label)
+		isOwner := strings.Contains(strings.ToLower(c.Pre.Params["gov/daoOwner"]), strings.ToLower(signer))
+		okMove := isOwner && amt.Cmp(daoBal) <= 0
 		if okMove && c.Res.Code == 0 {
 			want[dao] = new(big.Int).Neg(amt)
 			if c.Kind == "dao_transfer" {
